@@ -169,7 +169,43 @@ def entry_names(fams):
     return out
 
 
-def emit_checks(fams, lists):
+CTORS = {'gauss_sqrtinv_quadrature_scheme': ('gauss_sqrtinv_quadrature_rule', 'gaussSqrtinv'),
+         'gauss_x_quadrature_scheme': ('gauss_x_quadrature_rule', 'gaussX'),
+         'gauss_log_quadrature_scheme': ('gauss_log_quadrature_rule', 'gaussLog')}
+
+
+def parse_ctors(path):
+    """The degree -> key maps of the Gauss scheme constructors: `N = (N_poly + 1) // 2; rule(N)` is the only shape
+    accepted; returns {ctor: (a, b, c)} meaning key = (N_poly + a) // b and whether odd N_poly is asserted (c)."""
+    src = open(path).read()
+    tree = ast.parse(src)
+    out = {}
+    for node in tree.body:
+        if isinstance(node, ast.FunctionDef) and node.name in CTORS:
+            arg = node.args.args[0].arg
+            asg = [s for s in node.body if isinstance(s, ast.Assign)]
+            keyvar, a, b = None, None, None
+            for st in asg:
+                v = st.value
+                if (isinstance(v, ast.BinOp) and isinstance(v.op, ast.FloorDiv) and isinstance(v.right, ast.Constant) and
+                        isinstance(v.left, ast.BinOp) and isinstance(v.left.op, ast.Add) and isinstance(v.left.left, ast.Name)
+                        and v.left.left.id == arg and isinstance(v.left.right, ast.Constant) and len(st.targets) == 1
+                        and isinstance(st.targets[0], ast.Name)):
+                    keyvar, a, b = st.targets[0].id, int(v.left.right.value), int(v.right.value)
+            if keyvar is None:
+                raise TranslationError('%s: key computation `N = (N_poly + a) // b` not found' % node.name)
+            calls = [n for n in ast.walk(node) if isinstance(n, ast.Call) and isinstance(n.func, ast.Name) and n.func.id == CTORS[node.name][0]]
+            if len(calls) != 1 or len(calls[0].args) != 1 or not (isinstance(calls[0].args[0], ast.Name) and calls[0].args[0].id == keyvar):
+                raise TranslationError('%s: the rule is not requested with the computed key' % node.name)
+            odd = any(isinstance(s, ast.Assert) for s in node.body)
+            out[node.name] = (a, b, odd)
+    for c in CTORS:
+        if c not in out:
+            raise TranslationError('constructor %s not found' % c)
+    return out
+
+
+def emit_checks(fams, lists, ctors=None):
     """Returns {relative path under Stbem/Gen/RuleChecks: text}: per-entry certificates evaluated by the kernel."""
     names = entry_names(fams)
     files = {}
@@ -197,6 +233,15 @@ def emit_checks(fams, lists):
         f = LIST_FAM[l]
         agg.append('/-- every exported key has a branch -/\ntheorem available_%s :\n    %s.all (fun k => %s.any fun e => '
                    'decide (e.k1 = k.1) && decide (e.k2 = k.2)) = true := by decide +kernel' % (l, l, f))
+    if ctors:
+        for cname, (a, b, odd) in ctors.items():
+            fam, fl = CTORS[cname]
+            agg.append('/-- `%s`: key = (N_poly + %d) // %d -/\ndef ctorKey_%s (npoly : Int) : Int := (npoly + %d) / %d' % (cname, a, b, fl, a, b))
+            # every table key N is what the constructor computes for the odd degree 2N-1 (and, when even degrees are
+            # accepted, for 2N), and the table is exact at least to that degree
+            even = '' if odd else ' && decide (ctorKey_%s (2 * e.k1) = e.k1 || e.k1 = 0)' % fl
+            agg.append('theorem constructors_ok_%s :\n    %s.all (fun e => (decide (e.k1 ≤ 0) || decide (ctorKey_%s (2 * e.k1 - 1) = e.k1))%s && keyOK .%s e.k1 e.xs) = true := by decide +kernel'
+                       % (fl, fam, fl, even, fl))
     agg += ['', 'end Stbem.Rules.Gen', '']
     files['All.lean'] = '\n'.join(agg)
     return files
@@ -211,7 +256,8 @@ def generate(repo, gen_dir, write):
     """Writes Gen/Rules.lean and Gen/RuleChecks/*.lean through `write(path, text)`; removes stale check files."""
     fams, lists = parse_rules(os.path.join(repo, 'src', 'quadrature_rules.py'))
     write(os.path.join(gen_dir, 'Rules.lean'), emit(fams, lists))
-    files = emit_checks(fams, lists)
+    ctors = parse_ctors(os.path.join(repo, 'src', 'quadrature.py'))
+    files = emit_checks(fams, lists, ctors)
     cdir = os.path.join(gen_dir, 'RuleChecks')
     os.makedirs(cdir, exist_ok=True)
     for name in os.listdir(cdir):
